@@ -58,3 +58,8 @@ func (queue *PacketQueue) VerifPacketDataLens() []int {
 	}
 	return lens
 }
+
+// VerifChannelID returns the ID of the channel.
+func (tdsChan *Channel) VerifChannelID() int {
+	return tdsChan.channelId
+}
